@@ -238,7 +238,7 @@ def run(ctx, n_override=None):
             text = X.render_journal(xs)
             tag = 'c02'
         elif r < 0.6:
-            hs, _ = c09.gen_history(rng)
+            hs = c09.gen_history(rng)[0]     # (xacts, expected, eof)
             text = X.render_journal(hs)
             tag = 'c09'
         elif r < 0.7:
@@ -332,24 +332,55 @@ def run(ctx, n_override=None):
         res.count('kind:lot-merge')
         if first and (first[1] or first[2]):
             res.nontrivial.add(hashlib.sha256(text.encode('utf-8', 'surrogateescape') + ' '.join(cmd).encode()).hexdigest())
-    # directed (the sites Gen/OrderSites.v lists as depending on the table order): a balance of 2-6 commodities compared with a
-    # commoditized amount (value.cc is_less_than / is_greater_than: the entry met first decides between `false` and the
-    # error naming the other commodity), and top_amount of such a balance (report.cc: amounts.begin()); oracle: one input,
-    # one result - over the layouts AND it is what the property text asks, so a difference is reported under its own key
+    # directed (the two sites that DID depend on the table order - findings F190 / F191, repaired in /repo 55e6d28 / 195dbe5): a
+    # balance of 2-6 commodities compared with a commoditized amount (value.cc is_less_than: the entry met first decided
+    # between `false` and the error naming the other commodity; the walk is in commodity order now), and top_amount of such
+    # a balance (report.cc: amounts.begin() before, the first amount in commodity order now).  Oracle: one input, one result
+    # over the layouts.  Correspondence: the first layout's result against the extracted model (Amount.v v_ltb / top_amount
+    # through the C03 driver), value or error class.
+    c03 = importlib.import_module('props.c03')
     syms = ['EUR', 'USD', 'GBP', 'CHF', 'AAA', 'Q', 'XAU', 'BTC', 'JPY']
+    directed = []
     for k_ in range(ctx.scale(10, 60)):
         cs = rng.sample(syms, rng.randrange(2, 7))
-        terms = ' + '.join('%d %s' % (rng.randrange(1, 9), c) for c in cs)
+        lits = [('lit', c03.Lit(str(rng.randrange(1, 9)), 0, (c, 'suf'))) for c in cs]
+        bal = lits[0]
+        for l in lits[1:]:
+            bal = ('bin', '+', bal, l)
         if k_ % 2 == 0:
-            expr, tag_ = '(%s) %s %d %s' % (terms, rng.choice(['<', '>', '<=', '>=']), rng.randrange(1, 9), rng.choice(cs)), 'bal-cmp-commoditized'
+            rhs = ('lit', c03.Lit(str(rng.randrange(1, 9)), 0, (rng.choice([min(cs), max(cs), rng.choice(cs)]), 'suf')))
+            op = rng.choice(['<', '>', '<=', '>='])
+            tree = ('bin', op, bal, rhs) if rng.random() < 0.7 else ('bin', op, rhs, bal)
+            expr, tag_ = c03.render(tree), 'bal-cmp-commoditized'
         else:
-            expr, tag_ = 'top_amount(%s)' % terms, 'top-amount-of-balance'
+            tree = bal
+            expr, tag_ = 'top_amount(%s)' % c03.render(bal), 'top-amount-of-balance'
         first = run_case(ctx, res, tag_, '', ['eval', expr], nlay)
         res.count('kind:' + tag_)
         if first and (first[1] or first[2]):
             res.nontrivial.add(hashlib.sha256(expr.encode()).hexdigest())
+        if first:
+            directed.append((tag_, expr, tree, first))
+    if directed:
+        pool = c03.pool_sx({c: 0 for c in syms})
+        out = lib.run_model('C03', [lib.sx(['top' if tag_.startswith('top') else 'case', 'd%d' % i, pool, c03.to_sx(tree)])
+                                    for i, (tag_, expr, tree, first) in enumerate(directed)])
+        for (tag_, expr, tree, first), line in zip(directed, out):
+            rm = line.split(' ', 1)[1] if ' ' in line else line
+            st, so, se = first[0], first[1].decode('utf-8', 'replace').strip(), first[2].decode('utf-8', 'replace')
+            if 'Error:' in se:
+                ri = 'E:DiffComm' if 'different commodities' in se else ('E:BadOp' if re.search(r'Error: Cannot', se) else 'E:Other')
+            elif tag_.startswith('top'):
+                m = re.fullmatch(r'(-?\d+) (\w+)', so)
+                ri = 'A:%s:%s/1' % (m.group(2).encode().hex(), m.group(1)) if m else 'unreadable:' + so[:60]
+                rm = ':'.join(rm.split(':')[:3])            # commodity and quantity; precision and keep flag are not printed
+            else:
+                ri = {'true': 'L:1', 'false': 'L:0', '1': 'L:1', '0': 'L:0'}.get(so, 'unreadable:' + so[:60])      # eval prints a boolean as 1 / 0
+            res.traces += 1
+            res.count('model:%s:%s' % (tag_, 'error' if ri.startswith('E:') else 'value'))
+            if ri != rm:
+                res.disagreements.append(dict(name='C19/' + tag_, case=expr, impl=ri, model=rm))
     # value expressions through the REPL under the same layouts
-    c03 = importlib.import_module('props.c03')
     trees = [c03.gen_tree(rng, rng.choice([2, 3, 4]), rng.sample(c03.SYMS, 2), False) for _ in range(40)]
     cmds = ''.join("eval '%s'\n" % c03.render(t) for t in trees).encode()
     run_case(ctx, res, 'repl', X.render_journal(c01.gen_journal(rng)), [], nlay, stdin_cmds=cmds)
